@@ -254,6 +254,20 @@ func (c *Ctx) ConfirmSampling(what string, rerun func() string) bool {
 	return true
 }
 
+// Checkpoint writes what this shard has found so far to its output file, so that findings made early
+// survive a later unrecoverable crash of the worker process (e.g. a Go "fatal error" in code under
+// test); the parent merges a dead shard's checkpoint and still reports the death.
+func (c *Ctx) Checkpoint() {
+	if out := os.Getenv("VX_OUT"); out != "" && os.Getenv("VX_SHARD") != "" {
+		c.mu.Lock()
+		defer c.mu.Unlock()
+		so := shardOut{Parts: c.parts, Order: c.order, Viols: c.viols, Harness: c.harness, Transient: c.transient, Assumptions: c.Assumptions, Rule: c.Rule}
+		raw, _ := json.Marshal(so)
+		os.WriteFile(out+".tmp", raw, 0o644)
+		os.Rename(out+".tmp", out)
+	}
+}
+
 func (c *Ctx) HarnessError(s string) {
 	c.mu.Lock()
 	c.harness = append(c.harness, s)
@@ -468,7 +482,10 @@ func Main(spec CheckSpec, args []string) int {
 					tail = tail[len(tail)-3000:]
 				}
 				merged.HarnessError(fmt.Sprintf("shard %d died: %v\n%s", i, errs[i], tail))
-				continue
+				if err != nil || errs[i] == nil {
+					continue
+				}
+				// the shard left a checkpoint before it died: what it had found until then counts
 			}
 			var so shardOut
 			if err := json.Unmarshal(raw, &so); err != nil {
